@@ -139,12 +139,21 @@ def case_to_coq(c):
     cfg = coq_list(["(%s, %d, (%d)%%Z)" % (KIND[k], g, c["svcs"][g].get("maxq", 0)) for (k, g) in ws])
     dl = c.get("dials") or []
     dials = coq_list([coq_list([b(x) for x in ((dl[i] if i < len(dl) else None) or [])]) for i in range(len(ws))])
-    return ("{| c_id := (%d)%%Z; c_cfg := %s; c_attempts := %d%%N; c_dials := %s; c_drained := %s;\n     c_ops := %s;\n     c_obs := %s |}"
-            % (c["id"], cfg, c.get("attempts", 1), dials, b(c.get("drained")), coq_list(ops), coq_list(obs)))
+    own = []
+    for o in c["ops"]:
+        if o["t"] == "req":
+            seen = set()
+            for col in norm_cols(c["svcs"][o["s"]]["kind"], o.get("cols")):
+                for r in col:
+                    if (r[0], r[1]) not in seen:
+                        seen.add((r[0], r[1]))
+                        own.append("(%d%%N, %d%%N, KEnv %d%%N)" % (r[0], r[1], o["p"]))
+    return ("{| c_id := (%d)%%Z; c_cfg := %s; c_attempts := %d%%N; c_dials := %s; c_drained := %s;\n     c_ops := %s;\n     c_obs := %s;\n     c_own := %s |}"
+            % (c["id"], cfg, c.get("attempts", 1), dials, b(c.get("drained")), coq_list(ops), coq_list(obs), coq_list(own)))
 
 
 HEADER = ("From Coq Require Import List NArith ZArith Bool.\n"
-          "From Qryn Require Import model.Ingest model.PushHandler model.IngestSpec model.IngestCases.\n"
+          "From Qryn Require Import model.Ingest model.PushHandler model.IngestSpec model.IngestFresh model.IngestCases.\n"
           "Import ListNotations.\n")
 
 
@@ -160,7 +169,8 @@ def eval_cases(ck, name, cases):
     txt = (HEADER + "Definition cases : list case := [\n  " + ";\n  ".join(case_to_coq(c) for c in cases) + "].\n"
            "Definition M := Eval vm_compute in mismatches cases.\nPrint M.\n"
            "Definition V1 := Eval vm_compute in c01_violations cases.\nPrint V1.\n"
-           "Definition V2 := Eval vm_compute in c02_violations cases.\nPrint V2.\n")
+           "Definition V2 := Eval vm_compute in c02_violations cases.\nPrint V2.\n"
+           "Definition FR := Eval vm_compute in fresh_cases cases.\nPrint FR.\n")
     rc, out = ck.coq_eval(name, txt)
     if rc != 0:
         return None, None, None, out
@@ -168,7 +178,12 @@ def eval_cases(ck, name, cases):
     m, v1, v2 = parse_ids(flat, "M"), parse_ids(flat, "V1"), parse_ids(flat, "V2")
     if m is None or v1 is None or v2 is None:
         return None, None, None, out
+    FRESH.update(parse_ids(flat, "FR") or [])
     return m, v1, v2, out
+
+
+FRESH = set()      # ids of the level-1 cases on which fresh_run (C02's freshness hypothesis) holds
+FRESH2 = set()     # ... level-2 cases
 
 
 def case_weight(c):
@@ -323,8 +338,9 @@ def run_level1(ck, pid):
         mism += m
         v1 += a
         v2 += b2
+    wf = [c for c in good if all(is_wf(c["svcs"][o["s"]]["kind"], o.get("cols")) for o in c["ops"] if o["t"] == "req")]
     return {"cases": cases, "good": good, "broken": broken, "mism": mism, "v1": v1, "v2": v2,
-            "byid": {c["id"]: c for c in cases}}
+            "byid": {c["id"]: c for c in cases}, "wf": wf, "notfresh": [c["id"] for c in wf if c["id"] not in FRESH]}
 
 
 def coverage_level1(ck, res):
@@ -426,15 +442,30 @@ def case2_to_coq(c, wps=1):
         obs.append(coq_list(l))
     cfg = coq_list(["(%s, %d, 0%%Z)" % (KIND[k], i) for i, k in enumerate(L2KINDS) for _ in range(wps)])
     dials = coq_list([coq_list([b(x) for x in (d or [])]) for d in (c.get("dials") or [[] for _ in range(len(L2KINDS) * wps)])])
-    return ("{| d_id := (%d)%%Z; d_cfg := %s; d_attempts := %d%%N; d_dials := %s; d_drained := %s; d_handlers := %d;\n     d_ops := %s;\n     d_obs := %s |}"
-            % (c["id"], cfg, c.get("attempts", 1), dials, b(c.get("drained")), len(c.get("reqs") or []), coq_list(ops), coq_list(obs)))
+    own = []
+    hn = 0
+    for o in (c.get("ops") or []):
+        if o["t"] != "http":
+            continue
+        i = 0
+        for it in (c["reqs"][o.get("h", 0)].get("items") or []):
+            if it.get("err"):
+                break
+            for sr in (it.get("chunk") or []):
+                for run in compress(sr.get("rids") or []):
+                    own.append("(%d%%N, %d%%N, KSub %d %d)" % (run[0], run[1], hn, i))
+                i += 1
+        hn += 1
+    return ("{| d_id := (%d)%%Z; d_cfg := %s; d_attempts := %d%%N; d_dials := %s; d_drained := %s; d_handlers := %d;\n     d_ops := %s;\n     d_obs := %s;\n     d_own := %s |}"
+            % (c["id"], cfg, c.get("attempts", 1), dials, b(c.get("drained")), len(c.get("reqs") or []), coq_list(ops), coq_list(obs), coq_list(own)))
 
 
 def eval_cases2(ck, name, cases):
     txt = (HEADER + "Definition cases : list case2 := [\n  " + ";\n  ".join(case2_to_coq(c) for c in cases) + "].\n"
            "Definition M := Eval vm_compute in mismatches2 cases.\nPrint M.\n"
            "Definition V1 := Eval vm_compute in c01_violations2 cases.\nPrint V1.\n"
-           "Definition V2 := Eval vm_compute in c02_violations2 cases.\nPrint V2.\n")
+           "Definition V2 := Eval vm_compute in c02_violations2 cases.\nPrint V2.\n"
+           "Definition FR := Eval vm_compute in fresh_cases2 cases.\nPrint FR.\n")
     rc, out = ck.coq_eval(name, txt)
     if rc != 0:
         return None, None, None, out
@@ -442,6 +473,7 @@ def eval_cases2(ck, name, cases):
     m, v1, v2 = parse_ids(flat, "M"), parse_ids(flat, "V1"), parse_ids(flat, "V2")
     if m is None or v1 is None or v2 is None:
         return None, None, None, out
+    FRESH2.update(parse_ids(flat, "FR") or [])
     return m, v1, v2, out
 
 
@@ -470,7 +502,7 @@ def run_level2(ck, pid):
         v2 += b2
     nontab = [c for c in good if any(e["t"] == "send" and not block_is_table(e) for l in (c.get("obs") or []) for e in (l or []))]
     return {"cases": cases, "good": good, "broken": broken, "mism": mism, "v1": v1, "v2": v2, "nontab": nontab,
-            "byid": {c["id"]: c for c in cases}}
+            "byid": {c["id"]: c for c in cases}, "notfresh": [c["id"] for c in good if c["id"] not in FRESH2]}
 
 
 def shrink2(ck, case, still_bad, budget=30):
